@@ -375,3 +375,11 @@ package mapping
 //@   call return#6: assert opts != nil && len(opts.OptionalDep) > 0 && opts.OptionalDep[0] == '!'
 //@   call return#5: assert opts != nil && !opts.Optional && len(opts.Default) == 0
 //@   ensures implies(err == nil && required, why != 0)
+
+// opaque keys (form/path/header parameter names) are never split and never looked up in the process-wide cache of split
+// keys: the key itself is the one and only path element
+//@ lockinv global cacheKeysLock
+//@ guarded_by cacheKeys
+//@ func readKeys
+//@   property C08
+//@   ensures implies(opaque, len(result) == 1 && result[0] == key)
